@@ -157,7 +157,7 @@ theorem stems_agree_fp (sp : Str → Option (Str × Str)) (puny : Str → Str) (
     (trie : SNode Str) (sa sfx : Bool) {g : UrlG} {po : Option Nat} {u : Str}
     (h : StemClass true g po (lower u)) (hplain : sfx = true → HostPlain g.host) :
     ∃ t s, fingerprintUrlStringSplit puny id trie sfx u = .ok t ∧
-      fingerprintUrlString puny id trie sfx u = .ok s ∧
+      fingerprintUrlString puny id trie sfx u = .ok s ∧ t.scheme = [] ∧
       fingerprintedLruStems sp (stringEnv puny id trie) sa sfx u = .ok (stemsOfSplit sp sa t) ∧
       (lruStemsOfUrl sp modelSplit5 sa s).map (minusScheme t) = some (stemsOfSplit sp sa t) := by
   obtain ⟨H', e0, _, _⟩ := fp_tuple hpc h.good trie sfx hplain
@@ -169,16 +169,318 @@ theorem stems_agree_fp (sp : Str → Option (Str × Str)) (puny : Str → Str) (
     have hs : fingerprintUrl (stringEnv puny id trie) sfx u = .ok (fpString t) := by
       unfold fingerprintUrl; rw [ht]; rfl
     have hr := fp_reparse hpc h.good trie sfx hplain t e
+    have hsch : t.scheme = [] := by
+      rw [e] at e0
+      simp only [Except.ok.injEq] at e0
+      rw [e0]
     refine ⟨t, fpString t, by rw [fingerprintUrlStringSplit_eq]; exact ht,
-      by rw [fingerprintUrlString_eq]; exact hs, ?_⟩
+      by rw [fingerprintUrlString_eq]; exact hs, hsch, ?_⟩
     have hre : ReparseOk modelSplit5 (fpString t) t := by
       unfold ReparseOk
-      rw [hr]
-      have hsch : t.scheme = [] := by
-        rw [e] at e0
-        simp only [Except.ok.injEq] at e0
-        rw [e0]
-      rw [if_pos hsch]; rfl
+      rw [hr, if_pos hsch]; rfl
     exact stems_agree_fp_of_reparse sp modelSplit5 (stringEnv puny id trie) sa sfx u t _ ht hs hre
+
+
+/-! ## the variants factor through the result STRING (what C11's variant tries need) -/
+
+/-- the stems of a printed result, read off the string alone: `lru_stems`, minus the scheme stem
+unless the string starts with letters and `://` (`schemeKept`) -/
+def stemsOfPrinted (sp : Str → Option (Str × Str)) (sa : Bool) (X : Str) : Option (List Str) :=
+  (lruStemsOfUrl sp modelSplit5 sa X).map fun st => if schemeKept X then st else dropSchemeStem st
+
+/-- **`normalized_lru_stems(u)` depends on `u` only through the string `normalize_url(u)`**, on
+the class: `hfac` of C11's variant theorems, proved -/
+theorem normalized_stems_factor (sp : Str → Option (Str × Str)) (puny : Str → Str) (hpc : PunyClean puny)
+    (o : Opts) (sa : Bool) {ir : Bool} {g : UrlG} {po : Option Nat} {u : Str}
+    (h : StemClass ir g po u)
+    (hnet : HasNet (normParts puny o g.proto.hasProto (g.record po))) :
+    normalizedLruStems sp puny parseUrl id o ir sa u =
+      stemsOfPrinted sp sa (normalizeUrlString puny id o ir u) := by
+  rw [← stems_agree_norm sp puny hpc o sa h hnet]
+  unfold stemsOfPrinted
+  have hk : schemeKept (normalizeUrlString puny id o ir u) =
+      !(normParts puny o g.proto.hasProto (g.record po)).scheme.isEmpty := by
+    rw [(normalizeUrlString_class puny o h).1]
+    exact norm_schemeKept hpc o h.good hnet
+  have hfun : (fun st : List Str => if schemeKept (normalizeUrlString puny id o ir u) = true then st
+      else dropSchemeStem st) = minusScheme (normParts puny o g.proto.hasProto (g.record po)) := by
+    funext st
+    unfold minusScheme
+    rw [hk]
+    generalize (normParts puny o g.proto.hasProto (g.record po)).scheme = sc
+    cases sc with
+    | nil => simp
+    | cons a b => simp
+  rw [hfun]
+
+open Ural.FpReparse in
+/-- **`fingerprinted_lru_stems(u)` depends on `u` only through the string `fingerprint_url(u)`**,
+on the class (the fingerprint never has a scheme: the scheme stem is always dropped) -/
+theorem fingerprinted_stems_factor (sp : Str → Option (Str × Str)) (puny : Str → Str)
+    (hpc : PunyClean puny) (trie : SNode Str) (sa sfx : Bool) {g : UrlG} {po : Option Nat} {u : Str}
+    (h : StemClass true g po (lower u)) (hplain : sfx = true → HostPlain g.host) :
+    ∃ s st, fingerprintUrlString puny id trie sfx u = .ok s ∧
+      fingerprintedLruStems sp (stringEnv puny id trie) sa sfx u = .ok st ∧
+      (lruStemsOfUrl sp modelSplit5 sa s).map dropSchemeStem = some st := by
+  obtain ⟨t, s, _, hs, hsch, htok, hre⟩ := stems_agree_fp sp puny hpc trie sa sfx h hplain
+  refine ⟨s, _, hs, htok, ?_⟩
+  have hfun : (dropSchemeStem : List Str → List Str) = minusScheme t := by
+    funext st
+    simp [minusScheme, hsch]
+  rw [hfun]; exact hre
+
+/-- **`canonicalized_lru_stems(u)` depends on `u` only through the string `canonicalize_url(u)`**
+(defaults of `canonicalize_url`), for every string the modelled parser accepts, whose netloc holds
+no bracket and whose canonical netloc is not empty -/
+theorem canonicalized_stems_factor (sp : Str → Option (Str × Str)) (puny : Str → Str)
+    (hpc : PunyClean puny) (sa : Bool) (url : Str) (p : Parsed)
+    (hp : parseUrl (Canonicalize.cleanUrl url httpsStr) = some p)
+    (hb : '[' ∉ p.netloc ∧ ']' ∉ p.netloc)
+    (hn : (Canonicalize.canonParts puny false false p).netloc ≠ []) :
+    ∃ s, Canonicalize.canonicalizeUrl puny ⟨httpsStr, false, false⟩ url = some s ∧
+      canonicalizedLruStems sp puny parseUrl sa url = lruStemsOfUrl sp modelSplit5 sa s := by
+  refine ⟨UrlParts.urlunsplit (Canonicalize.canonParts puny false false p), ?_,
+    (stems_agree_canon sp puny hpc sa url p hp hb hn).symm⟩
+  unfold Canonicalize.canonicalizeUrl Canonicalize.canonicalizeSplit
+  simp only [hp, Option.bind_some]
+  unfold Canonicalize.canonSplit
+  rw [(no_bracket_facts hb).1]
+  simp only [Bool.false_eq_true, if_false, Option.map_some]
+  rw [printSplit_of_netloc _ hn]
+
+/-! ## the hostname helpers -/
+
+section
+variable {ir : Bool} {g : UrlG} {po : Option Nat} {u : Str}
+
+/-- the host the parser returns for a string of the class is one `normalize_hostname`'s own
+cleaning leaves alone -/
+theorem HostClass.cleanHost (h : HostClass ir g po u) : CleanHost (lower g.host) := by
+  unfold CleanHost
+  rw [Ural.HostnameTrieSet.strip_lower, h.nows, Ural.HostnameTrieSet.lower_lower]
+  apply stripControl_eq_self_iff.2
+  exact (h.stem.good.noCtl_sub h.stem.good.host_sub).lower
+
+theorem HostClass.hostname_eq (h : HostClass ir g po u) :
+    g.hostname = if g.host = [] then none else some (lower g.host) := by
+  unfold UrlG.hostname
+  rw [lowerHost_of_no_pct h.nopct]
+
+/-- the normalized host of a string of the class: lower-case, without `%` -/
+theorem HostClass.lowerHost_normHost (puny : Str → Str) (hpc : PunyClean puny) (hpl : PunyLower puny)
+    (o : Opts) (h : HostClass ir g po u) :
+    lowerHost (normHost puny o (lower g.host)) = normHost puny o (lower g.host) := by
+  have hp : '%' ∉ normHost puny o (lower g.host) := by
+    intro hm
+    have := normHost_bad puny hpc o _ (by decide) hm
+    exact h.nopct (mem_lower_bad (by decide) this)
+  rw [lowerHost_of_no_pct hp]
+  exact lowerFixed_iff.2 (normHost_lowerFixed hpl o _ (lowerFixed_lower _))
+
+/-- the `.hostname` accessor on the netloc `normalize_url` printed (userinfo stripped) -/
+theorem hostname_printed (puny : Str → Str) (hpc : PunyClean puny) (o : Opts)
+    (hauth : o.stripAuthentication = true) (h : StemClass ir g po u) (hp : Bool) :
+    hostname (normParts puny o hp (g.record po)).netloc =
+      if strOf (normComps puny o hp (g.record po)).host = [] then none
+      else some (lowerHost (strOf (normComps puny o hp (g.record po)).host)) := by
+  have e : (normParts puny o hp (g.record po)).netloc =
+      unsplitNetloc none none (normComps puny o hp (g.record po)).host (normComps puny o hp (g.record po)).port := by
+    show unsplitNetloc _ _ _ _ = _
+    simp [normComps, hauth]
+  rw [e]
+  have G := h.good
+  have hf := fun d hd => NormReparse.host_free hpc o hp G (d := d) hd
+  refine (accessors_unsplitNetloc none none _ _ (by simp [strOf_none])
+    ⟨hf '@' (by simp), hf '[' (by simp), hf ']' (by simp)⟩ ?_).2.2.1
+  intro n hn
+  simp only [normComps, UrlG.record] at hn
+  cases hpo : po with
+  | none => rw [hpo] at hn; simp at hn
+  | some m =>
+    rw [hpo] at hn
+    simp only at hn
+    split at hn
+    · simp at hn
+    · simp only [Option.mem_def, Option.some.injEq] at hn
+      subst hn
+      exact portVal_ok h.port m hpo
+
+/-- **`get_normalized_hostname(u)` is the host of `normalize_url(u)` — on strings, the parser
+inside the model.**  For every string of the class (`HostClass`), `normalize_amp` and
+`infer_redirection` ∈ {True, False}: the helper (its own cleaning, `ensure_protocol`, modelled
+`urlsplit`, `normalize_hostname`) returns the host the modelled parser finds in
+`normalize_url(u)` after a scheme is ensured (`None` ≡ empty; a result without host included). -/
+theorem normalized_hostname_string (puny : Str → Str) (hpc : PunyClean puny) (hpl : PunyLower puny)
+    (amp : Bool) (h : HostClass ir g po u) :
+    orNone (getNormalizedHostname puny hostOfModel amp ir u) =
+      hostAfterEnsure hostOfModel (normalizeUrlString puny id (ampOpts amp) ir u) := by
+  have G := h.stem.good
+  -- the result string and its reparse
+  rw [(normalizeUrlString_class puny (ampOpts amp) h.stem).1]
+  unfold hostAfterEnsure
+  have hnet := hasNet_default puny (ampOpts amp) rfl g.proto.hasProto (g.record po)
+  rw [hostOfModel_of_split5 (norm_reparse hpc (ampOpts amp) G hnet)]
+  simp only
+  rw [hostname_printed puny hpc (ampOpts amp) rfl h.stem]
+  -- the helper
+  have hh : getNormalizedHostname puny hostOfModel amp ir u =
+      match g.hostname with
+      | none => none
+      | some x => if x.isEmpty then none else some (normalizeHostname puny amp x) := by
+    unfold getNormalizedHostname
+    show (match hostOfModel (ensureProtocol (helperClean ir u) httpStr) with
+      | none => none
+      | some x => if x.isEmpty then none else some (normalizeHostname puny amp x)) = _
+    rw [helper_host h.stem.cls h.stem.nobr h.stem.port h.nopct]
+  rw [hh, h.hostname_eq]
+  have hc : (normComps puny (ampOpts amp) g.proto.hasProto (g.record po)).host =
+      g.hostname.map (normHost puny (ampOpts amp)) := rfl
+  rw [hc, h.hostname_eq]
+  by_cases he : g.host = []
+  · simp [he, strOf_none, orNone]
+  · simp only [he, if_false, Option.map_some, strOf_some]
+    have hne : (lower g.host).isEmpty = false := by
+      cases hx : g.host with
+      | nil => exact absurd hx he
+      | cons a b => simp [lower]
+    rw [h.lowerHost_normHost puny hpc hpl, normHost_ampOpts puny amp _ h.cleanHost]
+    simp only [hne, Bool.false_eq_true, if_false]
+    cases normalizeHostname puny amp (lower g.host) with
+    | nil => rfl
+    | cons a b => rfl
+
+
+open Ural.FpReparse in
+/-- **`get_fingerprinted_hostname(u, strip_suffix)` is the host of `fingerprint_url(u,
+strip_suffix)` — on strings, the parser inside the model.**  For every string `u` such that
+`u.lower()` is in the class (`HostClass true g po (lower u)`), `strip_suffix` ∈ {True, False} (with
+it, a host of plain characters), every suffix trie: `fingerprint_url` raises nothing, and the
+helper (lower-casing, redirection inference, its own cleaning, `ensure_protocol`, modelled
+`urlsplit`, `fingerprint_hostname`) returns the host the modelled parser finds in the fingerprint
+after a scheme is ensured (`None` ≡ empty; a fingerprint without host included). -/
+theorem fingerprinted_hostname_string (puny : Str → Str) (hpc : PunyClean puny) (hpl : PunyLower puny)
+    (trie : SNode Str) (sfx : Bool) {g : UrlG} {po : Option Nat} {u : Str}
+    (h : HostClass true g po (lower u)) (hplain : sfx = true → HostPlain g.host) :
+    (getFingerprintedHostname (stringEnv puny id trie) hostOfModel true sfx u).map orNone =
+      (fingerprintUrlString puny id trie sfx u).map (hostAfterEnsure hostOfModel) := by
+  have G := h.stem.good
+  obtain ⟨H', e0, hbad, hdisj⟩ := fp_tuple hpc G trie sfx hplain
+  have hfree : ∀ d, d ∈ ['/', '?', '#', '@', ':', '[', ']'] → d ∉ H' :=
+    fun d hd hm => G.host_free hd (hbad d (delim_bad hd) hm)
+  -- the URL side
+  have hR : (fingerprintUrlString puny id trie sfx u).map (hostAfterEnsure hostOfModel) =
+      .ok (orNone (if H' = [] then none else some (lowerHost H'))) := by
+    cases e : fpOfParsed (stringEnv puny id trie) sfx g.proto.hasProto (g.record po) with
+    | error err => rw [e] at e0; cases e0
+    | ok t =>
+      have htn : t.netloc = H' := by
+        rw [e] at e0; simp only [Except.ok.injEq] at e0; rw [e0]
+      have hr := fp_reparse hpc G trie sfx hplain t e
+      have hs : fingerprintUrl (stringEnv puny id trie) sfx u = .ok (fpString t) := by
+        unfold fingerprintUrl
+        rw [fingerprintSplit_class puny trie sfx h.stem, e]; rfl
+      rw [fingerprintUrlString_eq, hs]
+      show Except.ok (orNone (hostOfModel (ensureProtocol (fpString t) httpStr))) = _
+      rw [hostOfModel_of_split5 hr]
+      simp only
+      rw [htn, hostname_bare H' (hfree _ (by simp)) (hfree _ (by simp)) (hfree _ (by simp)) (hfree _ (by simp))]
+  rw [hR]
+  -- the helper
+  have hh : getFingerprintedHostname (stringEnv puny id trie) hostOfModel true sfx u =
+      match g.hostname with
+      | none => .ok none
+      | some x => if x.isEmpty then .ok none
+          else (fingerprintHostname (stringEnv puny id trie) sfx x).map some := by
+    unfold getFingerprintedHostname
+    show (match hostOfModel (ensureProtocol (helperClean true (lower u)) httpStr) with
+      | none => Except.ok none
+      | some x => if x.isEmpty then .ok none
+          else (fingerprintHostname (stringEnv puny id trie) sfx x).map some) = _
+    rw [helper_host h.stem.cls h.stem.nobr h.stem.port h.nopct]
+  rw [hh, h.hostname_eq]
+  have hnH : normH puny g po = (g.hostname.map (normHost puny fpOpts)).getD [] := rfl
+  rw [h.hostname_eq] at hnH
+  by_cases he : g.host = []
+  · simp only [he, if_true, Option.map_none, Option.getD_none] at hnH ⊢
+    rcases hdisj with ⟨_, h2⟩ | ⟨h1, _⟩
+    · subst h2; rfl
+    · exact absurd hnH h1
+  · simp only [he, if_false, Option.map_some, Option.getD_some] at hnH ⊢
+    have hne : (lower g.host).isEmpty = false := by
+      cases hx : g.host with
+      | nil => exact absurd hx he
+      | cons a b => simp [lower]
+    simp only [hne, Bool.false_eq_true, if_false]
+    have hfh : fingerprintHostname (stringEnv puny id trie) sfx (lower g.host) =
+        fingerprintHost (stringEnv puny id trie) sfx (normH puny g po) := by
+      unfold fingerprintHostname
+      have : (stringEnv puny id trie).puny = puny := rfl
+      rw [this, ← normHost_fpOpts puny _ h.cleanHost, hnH]
+    rw [hfh]
+    rcases hdisj with ⟨h1, h2⟩ | ⟨h1, h2⟩
+    · subst h2
+      rw [h1, fingerprintHost_nil _ sfx pyWalkHost_nil]
+      rfl
+    · have hv : hostnameView (normH puny g po) = normH puny g po := by
+        rw [hnH]; exact h.lowerHost_normHost puny hpc hpl fpOpts
+      rw [hv] at h2
+      rw [h2]
+      have hlf : LowerFixed H' := by
+        refine fingerprintHost_lowerFixed puny trie sfx _ _ ?_ ?_ h2
+        · intro hs; rw [← hv]; exact plain_view hpc G (hplain hs)
+        · rw [hnH]; exact normHost_lowerFixed hpl fpOpts _ (lowerFixed_lower _)
+      have hpc' : '%' ∉ H' := fun hm => h.nopct (hbad '%' (by decide) hm)
+      rw [lowerHost_of_no_pct hpc', lowerFixed_iff.2 hlf]
+      cases H' with
+      | nil => rfl
+      | cons a b => rfl
+
+/-! ## bare hostnames -/
+
+/-- the grammar of a bare hostname: nothing but the host -/
+def bareG (h : Str) : UrlG :=
+  { proto := .bare, ui := none, host := strip h, port := none, path := [], query := none, fragment := none }
+
+/-- a bare hostname is a string of the class (both for `infer_redirection=False`) -/
+theorem bare_hostClass (h : Str) (hb : BareHost h) : HostClass false (bareG h) none h := by
+  obtain ⟨hbs, _, hsc⟩ := bare_clean h hb
+  have hfree : ∀ d, d ∈ ['/', '?', '#', '@', ':', '[', ']', '%'] → d ∉ strip h :=
+    fun d hd hm => hbs.1 d hm hd
+  have hstr : (bareG h).str = strip h := by
+    simp [bareG, UrlG.str, UrlG.rest, UrlG.netloc, UrlG.tail, UrlG.hostPart, Proto.str, uiPart,
+      NormBridge.portPart, qPart, fPart]
+  have hrest : (bareG h).rest = strip h := by
+    simp [bareG, UrlG.rest, UrlG.netloc, UrlG.tail, UrlG.hostPart, uiPart,
+      NormBridge.portPart, qPart, fPart]
+  refine ⟨⟨⟨?_, ?_⟩, rfl, rfl⟩, hfree '%' (by simp), Ural.Py.strip_strip h⟩
+  · apply wf_of_facts
+    refine ⟨?_, rfl, ?_, rfl, rfl, rfl, rfl⟩
+    · show (!hasProtocol (bareG h).rest) = true
+      rw [hrest]
+      unfold hasProtocol
+      rw [protoLen_eq, protoLen_none_of_no_slash _ (hfree '/' (by simp))]
+      rfl
+    · show free ['/', '?', '#', '@', ':', '[', ']'] (strip h) = true
+      rw [free_iff]
+      intro c hc hbad
+      apply hfree c _ hc
+      simp only [List.mem_cons, List.not_mem_nil, or_false] at hbad ⊢
+      rcases hbad with h | h | h | h | h | h | h <;> simp [h]
+  · rw [hstr]
+    unfold resolvedClean preClean
+    simp only [Bool.false_eq_true, if_false]
+    rw [hsc, upperQuoted_of_no_pct _ (hfree '%' (by simp))]
+
+/-- **bare hostnames: `normalize_hostname(h)` is the host of `normalize_url(h)`** (and of
+`get_normalized_hostname(h)`: `bare_hostname_agrees`) — for every bare `h`, both `normalize_amp`,
+the parser inside the model; no hypothesis about the parser left -/
+theorem bare_hostname_string (puny : Str → Str) (hpc : PunyClean puny) (hpl : PunyLower puny)
+    (amp : Bool) (h : Str) (hb : BareHost h) :
+    orNone (some (normalizeHostname puny amp h)) =
+      hostAfterEnsure hostOfModel (normalizeUrlString puny id (ampOpts amp) false h) := by
+  rw [← bare_hostname_agrees puny amp h hb]
+  exact normalized_hostname_string puny hpc hpl amp (bare_hostClass h hb)
+
+end
 
 end Ural.Props.C07
